@@ -160,3 +160,44 @@ class Catalogue(object):
         g = hs.Grid(version=ver, columns=[('a', []), ('b', []), ('c', [])])
         g.extend([{'a': a, 'b': b, 'c': 'end'}, {'a': 'start', 'b': a, 'c': b}])
         return g
+
+
+    # ---- seeded random deep layouts (beyond the exhaustive plan space): nesting depth <= 3
+    SCALARS = ['null', 'marker', 'remove', 'bool', 'num', 'qty', 'str', 'uri', 'bin', 'ref', 'date', 'time', 'dt', 'coord']
+
+    def random_value(self, ver, depth=0, allow_null=True):
+        rng, hs = self.rng, self.hs
+        kinds = list(self.SCALARS)
+        if ver == '3.0':
+            kinds += ['na', 'xstr']
+            if depth < 3:
+                kinds += ['list', 'dict', 'grid'] * 2
+        if not allow_null:
+            kinds.remove('null')
+        k = rng.choice(kinds)
+        if k == 'list':
+            return [self.random_value(ver, depth + 1) for _ in range(rng.randint(0, 3))]
+        if k == 'dict':
+            return dict(('t%s' % rng.choice('abcdeXYZ_9'), self.random_value(ver, depth + 1, allow_null=False))
+                        for _ in range(rng.randint(0, 3)))
+        if k == 'grid':
+            return self.random_grid(ver, depth + 1)
+        return self.value(k, ver)[1]
+
+    def random_grid(self, ver, depth=0):
+        rng, hs = self.rng, self.hs
+        ncol = rng.randint(1, 4)
+        names = rng.sample(['a', 'b', 'cC', 'd_1', 'e9', 'fooBar', 'id', 'val'], ncol)
+        cols = [(n, [('m%d' % j, self.random_value(ver, depth + 1, allow_null=False)) for j in range(rng.randint(0, 2))])
+                for n in names]
+        meta = dict(('g%d' % j, self.random_value(ver, depth + 1, allow_null=False)) for j in range(rng.randint(0, 2)))
+        g = hs.Grid(version=ver, metadata=meta, columns=cols)
+        for _ in range(rng.randint(0, 4 if depth else 6)):
+            row = {}
+            for n in names:
+                if rng.random() < 0.85:
+                    row[n] = self.random_value(ver, depth + 1)
+            if ncol == 1 and (names[0] not in row or row[names[0]] is None):
+                row[names[0]] = 0          # an empty line in a one-column grid is a grid separator
+            g.append(row)
+        return g
